@@ -268,3 +268,185 @@ Proof.
   destruct (run_flat (sec_read cont pc_read s) inp); reflexivity.
 Qed.
 End PutDataLoop.
+
+(* ==================== the WHOLE loops, by induction over the section list ==================== *)
+Section WholeFromSave.
+Variable st_id : list N * (N * list N) -> option Z.
+Variable bio_id : list N -> option Z.
+Variable is_air : Z -> bool.
+Variable gs gb : Z.
+
+(* `for _, v := range c.Sections { body }` of ChunkFromSave: the translated body, iterated *)
+Fixpoint fs_loop (ypos secs : Z) (vs : list ssect) (acc : list (option (sect wcont))) : sres (list (option (sect wcont))) :=
+  match vs with
+  | [] => SOk acc
+  | v :: t =>
+      match fs_iter st_id bio_id is_air gs gb ypos secs v with
+      | SOk s => match fs_section s with
+                 | Some x => fs_loop ypos secs t (upd_at acc (Z.to_nat (fs_i s)) (Some x))
+                 | None => SPanic 98
+                 end
+      | SErr => SErr
+      | SPanic w => SPanic w
+      end
+  end.
+Lemma from_save_secs_whole ypos secs : 0 <= secs < 2^31 -> forall vs acc,
+  Forall (fun v => -128 <= ss_y v < 128) vs ->
+  from_save_secs st_id bio_id is_air gs gb ypos secs vs acc = fs_loop ypos secs vs acc.
+Proof.
+  intros Hs. induction vs as [|v t IH]; intros acc Hy; [reflexivity|].
+  inversion Hy as [|? ? Hv Ht]; subst.
+  rewrite (from_save_secs_interp st_id bio_id is_air gs gb ypos secs v t acc Hv Hs). cbn [fs_loop].
+  destruct (fs_iter st_id bio_id is_air gs gb ypos secs v) as [s| |w]; try reflexivity.
+  destruct (fs_section s); [apply IH; exact Ht|reflexivity].
+Qed.
+End WholeFromSave.
+
+Section WholeToSave.
+Variable st_name : Z -> option (list N * (N * list N)).
+Variable bio_name : Z -> option (list N).
+(* `for i, v := range c.Sections { body }` of ChunkToSave *)
+Definition ts_iter (ypos : Z) (i : nat) (v : sect wcont) : sres ssect :=
+  match interp_g (ts_step st_name bio_name i ypos v) (fun _ => None) (loop_body c13_ChunkToSave_body 2)
+                 (mkTS 0 [] [] [] [] None None) with
+  | SOk s => SOk (ts_section s) | SErr => SErr | SPanic w => SPanic w
+  end.
+Fixpoint ts_loop (ypos : Z) (i : nat) (ss : list (sect wcont)) : sres (list ssect) :=
+  match ss with
+  | [] => SOk []
+  | s :: t => match ts_iter ypos i s with
+              | SOk x => match ts_loop ypos (S i) t with SOk r => SOk (x :: r) | SErr => SErr | SPanic w => SPanic w end
+              | SErr => SErr | SPanic w => SPanic w
+              end
+  end.
+Lemma to_save_secs_whole ypos : forall ss i, to_save_secs st_name bio_name ypos i ss = ts_loop ypos i ss.
+Proof.
+  induction ss as [|s t IH]; intros i; [reflexivity|]. cbn [to_save_secs ts_loop].
+  unfold ts_iter. rewrite <- to_save_sec_interp. rewrite IH. reflexivity.
+Qed.
+
+(* the height-map assignments of ChunkToSave: the translated table (key, field), applied in order *)
+Definition hm_field (h : hmaps) (f : string) : option (option bstore) :=
+  match f with
+  | "WorldSurfaceWG" => Some (hWSWG h) | "WorldSurface" => Some (hWS h)
+  | "OceanFloorWG" => Some (hOFWG h) | "OceanFloor" => Some (hOF h)
+  | "MotionBlocking" => Some (hMB h) | "MotionBlockingNoLeaves" => Some (hMBNL h)
+  | _ => None
+  end.
+Definition string_bytes (s : string) : list N := map (fun a => N.of_nat (Ascii.nat_of_ascii a)) (list_ascii_of_string s).
+Definition ts_heightmaps (h : hmaps) (m : list (list N * list N)) : option (list (list N * list N)) :=
+  fold_left (fun acc row => match acc, hm_field h (snd row) with
+                            | Some mm, Some o => Some (hm_set (string_bytes (fst row)) (raw_of o) mm)
+                            | _, _ => None
+                            end) c13_ChunkToSave_heightmaps (Some m).
+
+(* ChunkToSave for whole chunks over the interpretation: the translated loop, then the translated table *)
+Theorem to_save_translated (c : wchunk) (dst : schunk) :
+  to_save st_name bio_name c dst =
+  match ts_loop (sc_ypos dst) O (c_secs c), ts_heightmaps (c_hm c) (sc_hm dst) with
+  | SOk secs, Some m => SOk (mkSC secs m (c_status c) (sc_ypos dst))
+  | SOk _, None => SPanic 99
+  | SErr, _ => SErr
+  | SPanic w, _ => SPanic w
+  end.
+Proof.
+  unfold to_save. rewrite to_save_secs_whole.
+  destruct (ts_loop (sc_ypos dst) 0 (c_secs c)); reflexivity.
+Qed.
+End WholeToSave.
+
+(* Chunk.PutData for whole chunks: the translated body once per section, in order *)
+Section WholePutData.
+Variable cont : Type.
+Variable pc_read : bool -> cont -> dec (cont * N).
+Hypothesis pc_robust : forall b d, robust (pc_read b d).
+Fixpoint pd_loop (ds : list (sect cont)) : dec (list (sect cont)) :=
+  match ds with
+  | [] => Ret []
+  | s :: t => s' <- interp_d (putdata_step cont pc_read) (loop_body c13_Chunk_PutData_body 1) s ;;
+              t' <- pd_loop t ;; Ret (s' :: t')
+  end.
+Lemma sec_read_robust' s : robust (sec_read cont pc_read s).
+Proof.
+  unfold sec_read. apply robust_bind; [apply (read_f_robust O TShort (VZ 0%Z))|]. intros [c n].
+  apply robust_bind; [apply pc_robust|]. intros [st n1].
+  apply robust_bind; [apply pc_robust|]. intros [bi n2]. constructor.
+Qed.
+Lemma secs_read_robust' : forall ds, robust (secs_read cont pc_read ds).
+Proof.
+  induction ds as [|d ds IH]; cbn [secs_read]; [constructor|].
+  apply robust_bind; [apply sec_read_robust'|]. intros s'. apply robust_bind; [exact IH|]. intros; constructor.
+Qed.
+Lemma pd_loop_robust : forall ds, robust (pd_loop ds).
+Proof.
+  induction ds as [|d ds IH]; cbn [pd_loop]; [constructor|].
+  change (interp_d (putdata_step cont pc_read) (loop_body c13_Chunk_PutData_body 1) d) with (s' <- sec_read cont pc_read d ;; Ret s').
+  apply robust_bind; [apply robust_bind; [apply sec_read_robust'|intros; constructor]|]. intros s'.
+  apply robust_bind; [exact IH|]. intros; constructor.
+Qed.
+Lemma secs_read_whole : forall ds inp, run_flat (secs_read cont pc_read ds) inp = run_flat (pd_loop ds) inp.
+Proof.
+  induction ds as [|d ds IH]; intros inp; [reflexivity|].
+  rewrite (secs_read_interp cont pc_read pc_robust d ds inp). cbn [pd_loop].
+  change (interp_d (putdata_step cont pc_read) (loop_body c13_Chunk_PutData_body 1) d) with (s' <- sec_read cont pc_read d ;; Ret s').
+  assert (R: robust (s' <- sec_read cont pc_read d ;; Ret s')) by (apply robust_bind; [apply sec_read_robust'|intros; constructor]).
+  rewrite !(run_flat_bind (bind (sec_read cont pc_read d) _)) by exact R.
+  destruct (run_flat (s' <- sec_read cont pc_read d;; Ret s') inp) as [s' r| | |]; try reflexivity.
+  rewrite (run_flat_bind (secs_read cont pc_read ds)) by apply secs_read_robust'.
+  rewrite (run_flat_bind (pd_loop ds)) by apply pd_loop_robust. rewrite IH. reflexivity.
+Qed.
+End WholePutData.
+
+(* ChunkFromSave for whole chunks over the interpretation: the translated section loop, then the size test and the
+   six height maps, each loaded from the key the translated table gives for its field *)
+Section WholeFromSave2.
+Variable st_id : list N * (N * list N) -> option Z.
+Variable bio_id : list N -> option Z.
+Variable is_air : Z -> bool.
+Variable gs gb : Z.
+
+Definition fs_key (f : string) : list N :=
+  match find (fun r => String.eqb (fst (fst (fst r))) f) c13_ChunkFromSave_heightmaps with
+  | Some r => string_bytes (snd (fst (fst r)))
+  | None => []
+  end.
+Definition fs_keys : list (list N) := map (fun r => string_bytes (snd (fst (fst r)))) c13_ChunkFromSave_heightmaps.
+
+Definition from_save_rest (c : schunk) (ss : list (option (sect wcont))) : sres (list (option (sect wcont)) * hmaps * list N) :=
+  let n := lenN (sc_secs c) in
+  match calc_size (hm_bits n) hm_len with
+  | None => SPanic pRt
+  | Some want =>
+      if existsb (fun k => match hm_lookup k (sc_hm c) with
+                           | Some l => negb (Z.of_N (lenN l) =? want) | None => false end)
+                 [fs_key "WorldSurfaceWG"; fs_key "WorldSurface"; fs_key "OceanFloorWG"; fs_key "OceanFloor";
+                  fs_key "MotionBlocking"; fs_key "MotionBlockingNoLeaves"] then SErr else
+      let nh f := new_hm_save n (hm_lookup (fs_key f) (sc_hm c)) in
+      match nh "WorldSurface", nh "WorldSurfaceWG", nh "OceanFloorWG", nh "OceanFloor", nh "MotionBlocking", nh "MotionBlockingNoLeaves" with
+      | SOk ws, SOk wswg, SOk ofwg, SOk of_, SOk mb, SOk mbnl => SOk (ss, mkHM wswg ws ofwg of_ mb mbnl, sc_status c)
+      | SPanic w, _, _, _, _, _ => SPanic w
+      | _, SPanic w, _, _, _, _ => SPanic w
+      | _, _, SPanic w, _, _, _ => SPanic w
+      | _, _, _, SPanic w, _, _ => SPanic w
+      | _, _, _, _, SPanic w, _ => SPanic w
+      | _, _, _, _, _, SPanic w => SPanic w
+      | _, _, _, _, _, _ => SErr
+      end
+  end.
+
+Theorem from_save_translated (c : schunk) :
+  Forall (fun v => -128 <= ss_y v < 128) (sc_secs c) -> Z.of_N (lenN (sc_secs c)) < 2^31 ->
+  from_save st_id bio_id is_air gs gb c =
+  match fs_loop st_id bio_id is_air gs gb (sc_ypos c) (Z.of_N (lenN (sc_secs c))) (sc_secs c)
+                (repeat None (List.length (sc_secs c))) with
+  | SOk ss => from_save_rest c ss
+  | SErr => SErr
+  | SPanic w => SPanic w
+  end.
+Proof.
+  intros Hy Hn. unfold from_save. cbv zeta.
+  rewrite (from_save_secs_whole st_id bio_id is_air gs gb (sc_ypos c) (Z.of_N (lenN (sc_secs c))) ltac:(lia) _ _ Hy).
+  destruct (fs_loop st_id bio_id is_air gs gb (sc_ypos c) (Z.of_N (lenN (sc_secs c))) (sc_secs c)
+              (repeat None (List.length (sc_secs c)))); reflexivity.
+Qed.
+End WholeFromSave2.
